@@ -11,6 +11,7 @@ from harness import c15_judges as J
 from harness import c15_lists as LS
 from harness import c15_lst as LT
 from harness import c15_margin as MB
+from harness import c15_pagestd as PS
 from harness import c15_pages as P
 from harness import c15_spec as SP
 from harness import c15_styles as S
@@ -162,7 +163,8 @@ class C15(PropCheck):
     extractors = (counter_styles.generate, first_letter_table.generate, list_hints.generate)
     modules = ('WpModel.Props.C15', 'WpModel.Props.C15Pages', 'WpModel.Props.C15Desc', 'WpModel.Props.C15Text',
                'WpModel.Props.C15Lists', 'WpModel.Props.C15PagesTotal', 'WpModel.Props.C15Content',
-               'WpModel.Props.C15Symbols', 'WpModel.Props.C15Margin', 'WpModel.Witness.C15')
+               'WpModel.Props.C15Symbols', 'WpModel.Props.C15Margin',
+               'WpModel.Props.C15PageStd', 'WpModel.Witness.C15')
     trusted_base = (
         'modelled, not verified: css/validation/descriptors.py (counter-style validators), css/targets.py '
         '(cache_target_page_counters, lookup/store/check_pending), layout/page.py (counter section of make_page), '
@@ -202,6 +204,7 @@ class C15(PropCheck):
         try:
             self._fixed_regressions(run)
             self._margin_boxes(run)
+            self._page_standardize(run)
             self._styles_ua(run)
             self._styles_custom(run)
             self._update_counters(run)
@@ -300,6 +303,24 @@ class C15(PropCheck):
             for line, out, n_boxes in MB.margin_cases(html):
                 sec.add(line, out, meta={'kind': 'mbox', 'html': html}, nontrivial=n_boxes >= 2,
                         tags=[f'boxes{min(n_boxes, 4)}'])
+
+    def _page_standardize(self, run):
+        sec = run.section(
+            'page-standardize',
+            'layout.page._standardize_page_based_counters called directly on style dictionaries (counter-set / -reset / '
+            '-increment with page, pages, other names, auto), in @page and @margin context, then again on its own '
+            'output, against Model/PageStd.standardize; non-trivial = the call changes the style')
+        seen = set()
+        for _ in range(run.n(1200, 12000)):
+            style, is_page = PS.gen_case(run.rng)
+            for line, out in PS.pstd_cases(style, is_page):
+                if line in seen:
+                    continue
+                seen.add(line)
+                before = ' '.join(line.split(' ')[2:])
+                sec.add(line, out, meta={'kind': 'pstd', 'style': {k: (v if v == 'auto' else [list(p) for p in v])
+                                                                    for k, v in style.items()}, 'is_page': is_page},
+                        nontrivial=out != before, tags=['page' if is_page else 'margin'])
 
     def _styles_ua(self, run):
         ua = S.ua_styles()
@@ -684,6 +705,9 @@ class C15(PropCheck):
             return LT.lst_clause(meta['text'])
         if kind == 'mbox':
             return MB.margin_clause(meta['html'])
+        if kind == 'pstd':
+            style = {k: (v if v == 'auto' else tuple(tuple(p) for p in v)) for k, v in meta['style'].items()}
+            return PS.pstd_clause(style, meta['is_page'])
         if kind == 'dv':
             return J.descriptor_clause(meta['descriptor'], meta['text'])
         if kind == 'rule':
@@ -899,6 +923,19 @@ class C15(PropCheck):
                         what = f'build raised {type(exc).__name__}: {exc}'
                     if what and add(what, {'meta': {'kind': 'cfn', 'text': f'target-counter("#t", {name})'}}, what):
                         return found
+        for _ in range(600):
+            style, is_page = PS.gen_case(run.rng)
+            run.search_stats['evaluations'] += 1
+            try:
+                what = PS.pstd_clause(style, is_page)
+            except Exception as exc:  # noqa: BLE001
+                what = f'_standardize_page_based_counters raised {type(exc).__name__} on {style}'
+            if what and add(what, {'meta': {'kind': 'pstd', 'style': {k: (v if v == 'auto' else [list(p) for p in v])
+                                                                        for k, v in style.items()},
+                                            'is_page': is_page}}, str(style)):
+                return found
+            if what:
+                break
         for html in MB.family():
             run.search_stats['evaluations'] += 1
             what = MB.margin_clause(html)
@@ -1125,6 +1162,8 @@ MANIFEST = {
             'the counter name of every counter function is the identifier as written (never case-folded); '
             'update_counters agrees with the css-lists-3 order on every counter an element does not both set and '
             'increment; cache_target_page_counters re-parses a box with its own page counters; '
+            '_standardize_page_based_counters leaves no `pages` in any counter property, always makes the @page '
+            'context count the page, and is idempotent (it is re-applied to the shared style of re-made pages); '
             'a page-margin box prints the page counters as changed by its own declarations only, whatever other margin '
             'boxes the page generates; a symbols() value the validator accepts renders every value as its padded initial representation or '
             'exactly as decimal does (no exception, no decimal exit for want of symbols); '
